@@ -33,8 +33,14 @@ class C06(core.Check):
             # exits for the exact decimal total — position sizes whose float sum is inexact
             force = {'kind': 'ladder', 'q': rng.choice([0.1, 0.3, 0.7]), 'style': rng.choice(['go', 'on_open'])} \
                 if rng.random() < 0.25 else None
+            # a fifth of the sessions: isolated margin at leverage 50..125 on wide minutes — stops that lie BEYOND the
+            # bankruptcy price are filled (matching comes before the liquidation check) with a loss larger than the
+            # margin, and forced closes are fills like any other: the ledger must still add up
+            iso = force is None and rng.random() < 0.2
             out.append(engcorr.gen_session(rng, max_n=120, tight=(rng.random() < 0.5) or force is not None,
-                                           vol=rng.choice([4, 8, 12]), lengths=[30, 60, 90, 120], isolated=False, force=force))
+                                           vol=rng.choice([12, 16]) if iso else rng.choice([4, 8, 12]), lengths=[30, 60, 90, 120],
+                                           isolated=iso, leverage=rng.choice([50, 100, 125]) if iso else None,
+                                           kinds=('futures',) if iso else ('futures', 'futures', 'spot'), force=force))
         return out
 
     def correspondence(self, res, boost):
